@@ -37,7 +37,8 @@ def dumpGraph (g : Adj) : String :=
 
 def dumpEnv (tag : String) (E : Env K) : String :=
   let ws := (List.range' 1 E.dim).map E.width
-  s!"{tag} {E.dim} defect {E.defect} width {nats ws} diag {renderAll E.diag.toList} env {renderAll E.env.toList}"
+  let xs := if E.dim = 0 then [] else (List.range' 1 (E.dim + 1)).map fun i => E.xenv.getD i 0
+  s!"{tag} {E.dim} defect {E.defect} width {nats ws} xenv {nats xs} diag {renderAll E.diag.toList} env {renderAll E.env.toList}"
 
 def dumpElements (E : Env K) : String :=
   let cells := (List.range' 1 E.dim).flatMap fun i => (List.range' 1 E.dim).map fun j =>
@@ -48,8 +49,17 @@ def dumpElements (E : Env K) : String :=
 
 def vecArg (ts : List String) : Option (Array K) := (parseAll ts).map List.toArray
 
-def step (s : Sess K) (line : String) : Sess K × String :=
+/-- `exactTol = true` (the `Rat` driver): `cholDec()` without argument is run with the exact value
+    `2⁻²⁶ = sqrt(2⁻⁵²)` of the default tolerance, because `Scalar Rat` has no square root;
+    the `Float` driver runs the `tol ≤ 0 → sqrt(epsilon)` branch of the model itself. -/
+def step (exactTol : Bool) (s : Sess K) (line : String) : Sess K × String :=
   match tokens line with
+  | ["choldec0"] =>
+    match s.E with
+    | some E =>
+      let E := if exactTol then E.cholDec (1 / Scalar.ofNat (2 ^ 26)) else E.cholDec 0
+      ({ s with E := some E }, dumpEnv "chol" E)
+    | none => (s, "bad-op")
   | ["new", f, r, c] =>
     match f.toNat?, r.toNat?, c.toNat? with
     | some f, some r, some c => ({ A := some (SMat.new f r c) }, "ok")
@@ -89,7 +99,7 @@ def step (s : Sess K) (line : String) : Sess K × String :=
     | some g =>
       match connected g with
       | some b => (s, s!"flag {if b then 1 else 0}")
-      | none => (s, "ub")
+      | none => (s, "undefined")
     | none => (s, "bad-op")
   | ["levels", r] =>
     match s.g, r.toNat? with
@@ -112,7 +122,7 @@ def step (s : Sess K) (line : String) : Sess K × String :=
   | ["envelope"] =>
     match s.A, s.g, s.o with
     | some A, some g, some o =>
-      if A.built && A.nodupRows then (let E := Env.ofSparse A g o; ({ s with E := some E }, dumpEnv "env" E))
+      if A.built then (let E := Env.ofSparse A g o; ({ s with E := some E }, dumpEnv "env" E))
       else (s, "refused")
     | _, _, _ => (s, "bad-op")
   | ["choldec", tol] =>
@@ -166,5 +176,5 @@ end
 
 def main (args : List String) : IO Unit :=
   match args with
-  | ["rat"] => loop (step (K := Rat)) {}
-  | _ => loop (step (K := Float)) {}
+  | ["rat"] => loop (step (K := Rat) true) {}
+  | _ => loop (step (K := Float) false) {}
